@@ -209,8 +209,8 @@ theorem RInv.assign (l : List (Nat × Nat)) (st : RSt) (h : RInv st)
     rw [this, List.append_assoc]
     simpa using hf
 
-theorem RInv.readOne (st : RSt) (h : RInv st) (s : Nat) : RInv (readOne st s) := by
-  unfold Splits.readOne
+theorem RInv.readLive (st : RSt) (h : RInv st) (s : Nat) : RInv (readLive st s) := by
+  unfold Splits.readLive
   cases hc : curOf st.splits s with
   | none => exact h
   | some c =>
@@ -275,6 +275,12 @@ theorem RInv.readOne (st : RSt) (h : RInv st) (s : Nat) : RInv (readOne st s) :=
         · exact ⟨e1, by simp only; omega⟩
         · exact ⟨e1, e2⟩
 
+theorem RInv.readOne (st : RSt) (h : RInv st) (s : Nat) : RInv (readOne st s) := by
+  unfold Splits.readOne
+  split
+  · exact h
+  · exact RInv.readLive st h s
+
 theorem RInv.read (b : List Nat) (st : RSt) (h : RInv st) : RInv (b.foldl Splits.readOne st) := by
   induction b generalizing st with
   | nil => exact h
@@ -303,11 +309,11 @@ theorem RInv.barrier (st : RSt) (h : RInv st) (n : Nat) : RInv (rstep st (.barri
       subst hrep
       refine ⟨by simp, ⟨by simp, ?_⟩, ?_⟩
       · intro r hr
-        obtain ⟨a, b⟩ := h.cur r hr
+        obtain ⟨a, b⟩ := h.cur r (List.mem_filter.mp hr).1
         simp only [List.take_left', List.drop_left', recIdx]
         refine ⟨a, b, by simp⟩
       · intro r hr
-        exact ⟨r, hr, rfl, Nat.le_refl _⟩
+        exact ⟨r, (List.mem_filter.mp hr).1, rfl, Nat.le_refl _⟩
 
 theorem read_keys (b : List Nat) (st : RSt) :
     (b.foldl Splits.readOne st).splits.map (·.split) = st.splits.map (·.split) := by
@@ -316,9 +322,12 @@ theorem read_keys (b : List Nat) (st : RSt) :
   | cons a b ih =>
     rw [List.foldl_cons, ih]
     unfold Splits.readOne
-    cases curOf st.splits a with
-    | none => rfl
-    | some c => exact advance_keys _ _
+    split
+    · rfl
+    · unfold Splits.readLive
+      cases curOf st.splits a with
+      | none => rfl
+      | some c => exact advance_keys _ _
 
 theorem RInv.run (as : List RAct) (st : RSt) (h : RInv st)
     (hf : (st.splits.map (·.split) ++ assignedIds as).Nodup) : RInv (rrun st as) := by
@@ -337,6 +346,7 @@ theorem RInv.run (as : List RAct) (st : RSt) (h : RInv st)
       show (((b.foldl Splits.readOne st).splits.map (·.split)) ++ assignedIds as).Nodup
       rw [read_keys]; exact hf
     | barrier n => exact ih _ (RInv.barrier st h n) hf
+    | drop s => exact ih _ ⟨h.keys, h.cur, h.held, h.reps⟩ hf
 
 theorem assignedIds_append (a b : List RAct) : assignedIds (a ++ b) = assignedIds a ++ assignedIds b := by
   induction a with
@@ -344,20 +354,83 @@ theorem assignedIds_append (a b : List RAct) : assignedIds (a ++ b) = assignedId
   | cons x a ih =>
     cases x <;> simp [assignedIds, ih, List.append_assoc]
 
+/-! ## A split the reader has dropped emits nothing more -/
+
+structure FInv (st : RSt) : Prop where
+  fin : ∀ sp ∈ st.finished, sp.2 ≤ st.out.length ∧ recIdx sp.1 (st.out.drop sp.2) = []
+
+theorem FInv.snoc (st : RSt) (h : FInv st) (e : Ev) (he : ∀ sp ∈ st.finished, recIdx sp.1 [e] = []) :
+    ∀ sp ∈ st.finished, sp.2 ≤ (st.out ++ [e]).length ∧ recIdx sp.1 ((st.out ++ [e]).drop sp.2) = [] := by
+  intro sp hsp
+  obtain ⟨a, b⟩ := h.fin sp hsp
+  refine ⟨by simp only [List.length_append]; omega, ?_⟩
+  rw [List.drop_append_of_le_length a, recIdx_append, b, he sp hsp]; rfl
+
+theorem FInv.readOne (st : RSt) (h : FInv st) (s : Nat) : FInv (readOne st s) := by
+  unfold Splits.readOne
+  by_cases hf : isFinished st s = true
+  · rw [if_pos hf]; exact h
+  · rw [if_neg hf]
+    unfold Splits.readLive
+    cases hc : curOf st.splits s with
+    | none => exact h
+    | some c =>
+      constructor
+      apply FInv.snoc st h
+      intro sp hsp
+      have hne : (s == sp.1) = false := by
+        cases hq : (s == sp.1) with
+        | false => rfl
+        | true =>
+          exfalso; apply hf
+          have : s = sp.1 := by simpa using hq
+          exact List.any_eq_true.mpr ⟨sp, hsp, by simp [this]⟩
+      simp [recIdx, hne]
+
+theorem FInv.step (st : RSt) (h : FInv st) (a : RAct) : FInv (rstep st a) := by
+  cases a with
+  | assign l => exact ⟨h.fin⟩
+  | read b =>
+    show FInv (b.foldl Splits.readOne st)
+    induction b generalizing st with
+    | nil => exact h
+    | cons x b ih => exact ih _ (FInv.readOne st h x)
+  | barrier n =>
+    constructor
+    apply FInv.snoc st h
+    intro sp _; simp [recIdx]
+  | drop s =>
+    constructor
+    intro sp hsp
+    rcases List.mem_append.mp hsp with h1 | h1
+    · exact h.fin sp h1
+    · simp only [List.mem_singleton] at h1
+      subst h1
+      show st.out.length ≤ st.out.length ∧ recIdx s (st.out.drop st.out.length) = []
+      simp [recIdx]
+
+theorem FInv.run (as : List RAct) (st : RSt) (h : FInv st) : FInv (rrun st as) := by
+  induction as generalizing st with
+  | nil => exact h
+  | cons a as ih => exact ih _ (FInv.step st h a)
+
 /-! ## A read is one atomic action of the loop -/
 
 theorem readOne_atomic (st : RSt) (s : Nat) :
     ∃ recs, (readOne st s).out = st.out ++ recs ∧ (∀ e ∈ recs, ∀ n, e ≠ Ev.barrier n) ∧
       (readOne st s).reports = st.reports := by
   unfold Splits.readOne
-  cases hc : curOf st.splits s with
-  | none => exact ⟨[], by simp, by simp, rfl⟩
-  | some c =>
-    refine ⟨[Ev.record s c], rfl, ?_, rfl⟩
-    intro e he n
-    simp only [List.mem_singleton] at he
-    subst he
-    intro h; cases h
+  split
+  · exact ⟨[], by simp, by simp, rfl⟩
+  · unfold Splits.readLive
+    cases hc : curOf st.splits s with
+    | none => exact ⟨[], by simp, by simp, rfl⟩
+    | some c =>
+      refine ⟨[Ev.record s c], rfl, ?_, rfl⟩
+      intro e he n
+      simp only [List.mem_singleton] at he
+      subst he
+      intro h; cases h
 
 theorem read_atomic (b : List Nat) (st : RSt) :
     ∃ recs, (b.foldl Splits.readOne st).out = st.out ++ recs ∧ (∀ e ∈ recs, ∀ n, e ≠ Ev.barrier n) ∧
@@ -393,15 +466,29 @@ theorem kstep_is_rrun (k : KRd) (a : KAct) :
   | assign l => exact ⟨[.assign l], rfl, by simp [assignedIds, kAssignedIds]⟩
   | fail n => exact ⟨[], rfl, rfl⟩
   | barrier n => exact ⟨[.barrier n], rfl, rfl⟩
+  | close s => exact ⟨[], rfl, rfl⟩
+  | expire => exact ⟨[], rfl, rfl⟩
   | read =>
+    have hok : ∀ (k' : KRd) (sp : RSplit), k'.r = k.r →
+        ∃ ras, (kreadOk k' sp).1.r = rrun k.r ras ∧ assignedIds ras = kAssignedIds [KAct.read] := by
+      intro k' sp hr
+      unfold kreadOk
+      simp only
+      split
+      · exact ⟨[.read (List.replicate (min k'.limit (totalOf k'.totals sp.split - sp.cur)) sp.split), .drop sp.split], by rw [hr]; rfl, rfl⟩
+      · exact ⟨[.read (List.replicate (min k'.limit (totalOf k'.totals sp.split - sp.cur)) sp.split)], by rw [hr]; rfl, rfl⟩
     simp only [kstep]
-    cases hs : k.r.splits[k.idx]? with
+    cases hs : (activeOf k.r)[k.idx]? with
     | none => exact ⟨[], rfl, rfl⟩
     | some sp =>
       simp only
       split
       · exact ⟨[], rfl, rfl⟩
-      · exact ⟨[.read (List.replicate (min k.limit (totalOf k.totals sp.split - sp.cur)) sp.split)], rfl, rfl⟩
+      · split
+        · split
+          · exact ⟨[], rfl, rfl⟩
+          · exact hok _ sp rfl
+        · exact hok _ sp rfl
 
 theorem kAssignedIds_cons (a : KAct) (as : List KAct) : kAssignedIds (a :: as) = kAssignedIds [a] ++ kAssignedIds as := by
   cases a <;> simp [kAssignedIds]
